@@ -39,6 +39,42 @@ PROPS = {
         'oracles': {'*': 'c13_function'},
         'not_covered': [],
     },
+    'C14': {
+        'units': ['compare', 'subst'],
+        'functions': ['built_in_comparison.rs::get_two_constants', 'built_in_comparison.rs::bip_equal',
+                      'built_in_comparison.rs::bip_less_than', 'built_in_comparison.rs::bip_less_than_or_equal',
+                      'built_in_comparison.rs::bip_greater_than', 'built_in_comparison.rs::bip_greater_than_or_equal',
+                      'substitution_set.rs::get_constant', 'substitution_set.rs::get_ground_term'],
+        'oracles': {'*': 'c14_compare'},
+        'not_covered': [
+            "'at most once' is the more_solutions flag of next_solution_bip (RefCell solver node): not covered",
+            'float and int/float arms: Verus leaves exec f64 comparison unspecified; decided by the Kani harnesses of the thorough tier',
+            'infix parsing of the operators (string level)',
+        ],
+    },
+    'C16': {
+        'units': ['append', 'listops', 'lists'],
+        'functions': ['built_in_append.rs::next_solution_append', 's_linked_list.rs::get_terms', 's_linked_list.rs::get_list_data'],
+        'oracles': {'*': 'c16_append'},
+        'not_covered': [
+            "'succeeds at most once' is the more_solutions flag of next_solution_bip (RefCell solver node)",
+            'termination of the walk through bound tails (get_terms) - exec_allows_no_decreases_clause; lists that are their own tail are occurs-check cases',
+            'inputs that are unbound variables or have unbound / anonymous tails are outside the statement (precondition)',
+        ],
+    },
+    'C17': {
+        'units': ['listops', 'lists'],
+        'functions': ['s_linked_list.rs::count_terms', 's_linked_list.rs::filter', 's_linked_list.rs::pass_filter',
+                      's_linked_list.rs::get_terms', 's_linked_list.rs::get_list_data',
+                      'built_in_count.rs::bip_count', 'built_in_filter.rs::bip_include', 'built_in_filter.rs::bip_exclude'],
+        'oracles': {'s_linked_list.rs::filter': 'c17_filter', 's_linked_list.rs::count_terms': 'c17_count',
+                    's_linked_list.rs::get_terms': 'c17_terms', '*': 'c17_filter'},
+        'not_covered': [
+            'functor (next_solution_functor / atoms_match) and the string assembly of join (evaluate_join): not yet under contract',
+            'termination of the walks through bound tails (exec_allows_no_decreases_clause)',
+            "include/exclude: 'unify with the filter term' is the uninterpreted unify_ok, tied to the real unify by the purity assumption",
+        ],
+    },
     'C15': {
         'units': ['lists'],
         'functions': ['s_linked_list.rs::make_linked_list', 's_linked_list.rs::link_front'],
